@@ -576,6 +576,132 @@ def spec_langs(op):
     return list(LANGS[:2])
 
 
+# ---- two sets that share their VOCABULARY (style class names, layout values, language codes) with different meanings ----
+VOCAB_CLASSES = ["ca", "cb", "s1", "p", "big"]
+VOCAB_RULES = [{"italics": True}, {"bold": True}, {"underline": True}, {"italics": False, "bold": True},
+               {"italics": True, "underline": True, "bold": False}, {"color": "red"}, {"text-align": "right"},
+               {"font-family": "Arial", "italics": True}, {"bold": False, "underline": False, "italics": False}, {}]
+VOCAB_LAYOUTS = ["rel_fit", "rel_noext", "rel_over", "pad", "align", "vtt", None]
+
+
+def _class_ref(rng, names):
+    if len(names) >= 2 and rng.random() < 0.4:
+        ks = rng.sample(names, 2)
+        return {"classes": ks, "class": " ".join(ks)}
+    return {"class": rng.choice(names)}
+
+
+def gen_vocab_pair(rng):
+    """A and B: the same languages, times, texts and the same REFERENCES (class names on caption styles and STYLE nodes,
+    layout slots); what the names MEAN differs: the rules of each class (italics / bold / underline / ...), which
+    layout value sits in which slot, sometimes a class that B does not define at all."""
+    names = rng.sample(VOCAB_CLASSES, rng.randint(1, 3))
+    langs = rng.sample(LANGS, rng.choice([1, 1, 2]))
+    skeleton = []
+    for lang in langs:
+        caps = []
+        for (s_, e_) in spans(rng, rng.randint(1, 3), same_prob=0.15):
+            style = _class_ref(rng, names) if rng.random() < 0.6 else None
+            nodes = []
+            opened = None
+            if rng.random() < 0.6:
+                opened = _class_ref(rng, names) if rng.random() < 0.8 else {"italics": True}
+                nodes.append(["s", True, opened, "N"])
+            nodes.append(["t", words(rng), "N"])
+            if opened is not None and rng.random() < 0.8:
+                nodes.append(["s", False, dict(opened), None])
+            if rng.random() < 0.4:
+                nodes += [["b", None], ["t", words(rng), None]]
+            caps.append({"start": s_ * 1000, "end": e_ * 1000, "style": style, "layout": "C", "nodes": nodes})
+        skeleton.append({"lang": lang, "layout": "L", "caps": caps})
+
+    def instance():
+        slot = {k: rng.choice(VOCAB_LAYOUTS) for k in ("S", "L", "C", "N")}
+        defined = [n for n in names if rng.random() < 0.85]
+        styles = [[n, dict(rng.choice(VOCAB_RULES))] for n in defined]
+        if rng.random() < 0.3:
+            styles.append(["other", {"color": "blue"}])
+        out = []
+        for lg in skeleton:
+            caps = []
+            for c in lg["caps"]:
+                nodes = []
+                for nd in c["nodes"]:
+                    nd = list(nd)
+                    if nd[0] == "s":
+                        nd[2] = json_copy(nd[2])
+                        nd[3] = slot["N"] if nd[3] == "N" and rng.random() < 0.3 else None
+                    elif nd[0] == "t":
+                        nd[2] = slot["N"] if nd[2] == "N" and rng.random() < 0.4 else None
+                    nodes.append(nd)
+                caps.append({"start": c["start"], "end": c["end"],
+                             "style": None if c["style"] is None else json_copy(c["style"]),
+                             "layout": slot["C"], "nodes": nodes})
+            out.append({"lang": lg["lang"], "layout": slot["L"], "caps": caps})
+        return {"layout": slot["S"], "styles": styles, "langs": out}
+    return instance(), instance()
+
+
+def json_copy(x):
+    import json
+    return json.loads(json.dumps(x))
+
+
+def history_vocab(rng):
+    """ONE writer object writes A, then B (same vocabulary, other meanings); a fresh object writes B; the first object
+    writes A again; a third writes A.  Every writer class; WebVTT (class -> <i>/<b>/<u> resolution) most often."""
+    a, b = gen_vocab_pair(rng)
+    kind = "vtt" if rng.random() < 0.35 else rng.choice(WRITER_KINDS)
+    kind, wopts = gen_writer(rng, kind)
+
+    def wr(w, s_):
+        return {"op": "write", "kind": kind, "wopts": wopts, "kw": {}, "w": w, "set": s_}
+    ops = [{"op": "build", "spec": a}, {"op": "build", "spec": b}, wr(0, 0), wr(0, 1), wr(1, 1)]
+    if rng.random() < 0.6:
+        ops += [wr(0, 0), wr(2, 0)]
+    return ops
+
+
+# ---- DFXP writers x inline positioning x relativize x fit_to_screen x video size on absolute set / language layouts ----
+def history_inline(rng):
+    spec = gen_spec(rng, rng.choice(["abs", "rich", "rich"]))
+    spec["layout"] = rng.choice(["abs", "abs", "abs_pt", "abs_c", "abs_em", "rel_noext", "pad"])
+    for lg in spec["langs"]:
+        if rng.random() < 0.6:
+            lg["layout"] = rng.choice(["abs", "abs_pt", "abs_c", "abs_em", "rel_over"])
+    kind = rng.choice(["dfxp", "dfxp", "single", "legacy"])
+    combos = []
+    for inline in (True, False):
+        for rel in (None, False):
+            for fit in (None, False):
+                for size in (None, (640, 360), (1280, 720)):
+                    wo = {}
+                    if inline:
+                        wo["write_inline_positioning"] = True
+                    if rel is not None:
+                        wo["relativize"] = rel
+                    if fit is not None:
+                        wo["fit_to_screen"] = fit
+                    if size:
+                        wo["video_width"], wo["video_height"] = size
+                    combos.append(wo)
+    rng.shuffle(combos)
+    chosen = combos[:rng.randint(2, 3)]
+    if rng.random() < 0.6:
+        chosen[0] = {"write_inline_positioning": True, "video_width": 640, "video_height": 360}
+    if kind == "legacy":
+        chosen = [{}]
+    if kind == "single" and rng.random() < 0.5:
+        for wo in chosen:
+            wo["default_positioning"] = "abs"
+    ops = [{"op": "build", "spec": spec}]
+    for k, wo in enumerate(chosen):
+        ops.append({"op": "write", "kind": kind, "wopts": wo, "kw": {}, "w": k, "set": 0})
+    ops.append({"op": "write", "kind": kind, "wopts": chosen[0], "kw": {}, "w": 0, "set": 0})
+    ops.append({"op": "write", "kind": kind, "wopts": chosen[0], "kw": {}, "w": len(chosen), "set": 0})
+    return ops
+
+
 def history_c09(rng):
     """1-3 caption sets, 3-8 writes on shared and fresh writer objects; the same (writer class, options, set) is
     written again by the same object, by a fresh object and after other sets were written; now and then an edit."""
@@ -643,6 +769,10 @@ def history_c09(rng):
         for k, wo in enumerate(variants[:rng.randint(2, 4)]):
             ops.append({"op": "write", "kind": kind, "wopts": wo, "kw": {}, "w": k, "set": 0})
         return ops
+    if shape < 0.76:
+        return history_vocab(rng)
+    if shape < 0.82:
+        return history_inline(rng)
     nsets = rng.choice([1, 2, 2, 3])
     for k in range(nsets):
         ops.append(gen_source(rng, rid=k, p_build=0.6))
